@@ -662,3 +662,34 @@ pub fn run_items_isolated(
     });
     false
 }
+
+/// Runs the whole check in one child process (same arguments) so that a subject
+/// that aborts the process (failed enormous allocation, stack overflow) is reported
+/// as a violation of the property instead of killing the check. Returns `None` when
+/// this process is that child (or a `--child` worker): the caller runs the check.
+pub fn run_whole_in_child(args: &Args, level: &'static str) -> Option<i32> {
+    if std::env::var("VERIF_WHOLE_CHILD").is_ok() || child_ctl(args).is_some() {
+        if std::env::var("VERIF_SELFTEST_ABORT").is_ok() {
+            std::process::abort(); // self-test of the reporting path below
+        }
+        return None;
+    }
+    let exe = std::env::current_exe().unwrap_or_else(|e| machinery_failure(&format!("current_exe: {e}")));
+    let st = std::process::Command::new(&exe)
+        .args(std::env::args().skip(1))
+        .env("VERIF_WHOLE_CHILD", "1")
+        .status()
+        .unwrap_or_else(|e| machinery_failure(&format!("cannot start the check process: {e}")));
+    match st.code() {
+        Some(c) if c != 134 => Some(c),
+        _ => {
+            let report = Report::new(args, level);
+            report.violation(
+                "whole-check|process-died",
+                &format!("the check process died ({st}) while exploring: abort / failed enormous allocation / stack overflow in the subject"),
+                json!({"kind": "process-died", "status": format!("{st}"), "args": std::env::args().skip(1).collect::<Vec<_>>()}),
+            );
+            Some(report.finish())
+        }
+    }
+}
